@@ -88,12 +88,16 @@ scheme, as they don't correspond to any particular rule.`,
 				err = processAll(ctxt, checkOnly)
 			} else {
 				filename := args[0]
-				if path.Ext(filename) == "" {
+				// like the include directive: every name that does not end in `.ra` gets the extension
+				if path.Ext(filename) != ".ra" {
 					filename += ".ra"
 				}
 				filePath := path.Join(ctxt.RootContext().IncludesDir(), filename)
 				if err = parseRuleId(filename); err == nil {
 					filePath = path.Join(ctxt.RootContext().AssemblyDir(), ruleValues.fileName)
+				} else if !strings.HasPrefix(filePath, path.Clean(ctxt.RootContext().AssemblyDir())+"/") {
+					// only assembly files are formatted, a name must not lead out of the assembly directory
+					return fmt.Errorf("%s is not a file in the assembly directory", args[0])
 				}
 				err = processFile(filePath, ctxt, checkOnly)
 			}
